@@ -368,7 +368,15 @@ probe_all.counter = 0
 
 
 def run_path(job):
-    """job = (ext, splits, amp_table, edges, seed) -> (steps_ok, violations)"""
+    """job = (ext, splits, amp_table, edges, seed) -> (steps_ok, violations); total: whatever is raised while the views of
+    the object are being compared is a verdict, not a harness error"""
+    try:
+        return _run_path(job)
+    except Exception as ex:          # noqa
+        return 0, [{"step": -1, "op": {"op": "?", "a": []}, "what": f"the views cannot be examined: {type(ex).__name__}: {ex}"}]
+
+
+def _run_path(job):
     ext, splits, amps, edges, seed = job
     drv = Driver(ext, splits, seed)
     viol = []
